@@ -1409,6 +1409,9 @@ func normAV1(obu []byte) []byte {
 	return b
 }
 
+// NormAV1 is normAV1 for other packages.
+func NormAV1(obu []byte) []byte { return normAV1(obu) }
+
 func normParams(codec string, p ParamSet) ParamSet {
 	if codec == "av1" {
 		p.A = normAV1(p.A)
